@@ -146,18 +146,22 @@ fn build_source(kind: SrcKind) -> Built {
         nd.checkpoint_truncate().await;
     });
     src.crash();
+    let mut db = db;
     if kind == SrcKind::MixedDeleteJournal {
-        // the node's connections may still be closing on their threads: wait for the lock
-        let c = rusqlite::Connection::open(&db).unwrap();
-        c.busy_timeout(Duration::from_secs(30)).unwrap();
-        let start = Instant::now();
-        loop {
-            match c.query_row("PRAGMA journal_mode = DELETE", [], |r| r.get::<_, String>(0)) {
-                Ok(m) if m == "delete" => break,
-                _ if start.elapsed() > Duration::from_secs(30) => machinery_error("could not switch the source to a rollback journal"),
-                _ => std::thread::sleep(Duration::from_millis(20)),
-            }
+        // a rollback-journal source: the node checkpointed and truncated its log above, so the
+        // database file alone is the whole database; switch a copy of it (nobody else has the copy
+        // open, whatever the dropped node's threads are still doing with the original)
+        let dir = s.path().join("src_rollback");
+        std::fs::create_dir_all(&dir).unwrap();
+        let copy = dir.join(db.file_name().unwrap());
+        std::fs::copy(&db, &copy).unwrap();
+        let c = rusqlite::Connection::open(&copy).unwrap();
+        let m: String = c.query_row("PRAGMA journal_mode = DELETE", [], |r| r.get(0)).unwrap();
+        if m != "delete" {
+            machinery_error("could not switch the source copy to a rollback journal");
         }
+        drop(c);
+        db = copy;
     }
     Built { _scratch: s, db, actor, others }
 }
